@@ -1177,12 +1177,16 @@ pub fn counters() -> Vec<Pos> {
     let ss = seeds();
     let mut clocks: Vec<u32> = (0..=151).collect();
     clocks.extend([254, 255, 256, 257, 258, 32766, 32767, 32768, 32769, 65533, 65534, 65535]);
-    for p in ss.iter().take(12) {
+    // plus a position with a pending en-passant mark and its colour mirror: a mark together with a
+    // non-zero clock cannot arise in play but is a valid board
+    let mut roots: Vec<Pos> = ss.iter().take(12).cloned().collect();
+    let epm = read_fen("r3k2r/pp3ppp/8/3pP3/8/8/PPP2PPP/R3K2R w KQkq d6 0 1").expect("ep counters fen");
+    roots.push(epm);
+    roots.push(mirror_colours(&epm));
+    for p in roots.iter() {
         for &h in &clocks {
             for &n in &[1u32, 2, 255, 256, 257, 32767, 32768, 65534, 65535] {
                 let mut q = *p;
-                // a non-zero clock is incompatible with an en-passant mark only by game logic,
-                // not by validity; seeds carry no mark
                 q.hmc = h;
                 q.fmn = n;
                 v.push(q);
@@ -1534,10 +1538,14 @@ pub fn pawnrow(own: u8, f: Sink) {
 /// Kings on e1 / e8 (and on a1 / h8), n white men of kind kw filling the board from a2 upwards, m
 /// black men of kind kb from h7 downwards, for every pair of kinds {P, N, B, R, Q}, n, m in
 /// 0..=15, both sides to move: more than eight pawns, many promoted pieces, sixteen men a side.
-pub fn counts(f: Sink) {
+pub const COUNTS_SHARDS: usize = 25;
+
+/// shard = white kind index * 5 + black kind index
+pub fn counts(shard: usize, f: Sink) {
+    let kinds = [P, N, B, R, Q];
     for &(wk, bk) in &[(4usize, 60usize), (0, 63)] {
-        for &kw in &[P, N, B, R, Q] {
-            for &kb in &[P, N, B, R, Q] {
+        for &kw in &kinds[shard / 5..shard / 5 + 1] {
+            for &kb in &kinds[shard % 5..shard % 5 + 1] {
                 for n in 0..=15usize {
                     for m in 0..=15usize {
                         for stm in 0..2u8 {
@@ -1552,6 +1560,124 @@ pub fn counts(f: Sink) {
                                 p.b[55 - i] = mk(1, kb);
                             }
                             emit_if_valid(&p, f);
+                        }
+                    }
+                }
+            }
+        }
+    }
+}
+
+/// CASTLE3: BOTH sides with king and rook(s) at home (every pair of rook subsets, every consistent
+/// rights set) and one further man of any kind and colour on every square: castling next to an
+/// opponent who still holds his rights (a third rook, a queen on the back rank, ...)
+pub const CASTLE3_SHARDS: usize = 18;
+
+/// shard = side to move * 9 + (white rooks - 1) * 3 + (black rooks - 1)
+pub fn castle3(shard: usize, f: Sink) {
+    let own = (shard / 9) as u8;
+    for wr in [(shard % 9 / 3 + 1) as u8] {
+        for br in [(shard % 3 + 1) as u8] {
+            let mut base = Pos::empty();
+            base.stm = own;
+            base.b[sq(4, 0)] = K;
+            base.b[sq(4, 7)] = mk(1, K);
+            if wr & 1 != 0 {
+                base.b[sq(0, 0)] = R;
+            }
+            if wr & 2 != 0 {
+                base.b[sq(7, 0)] = R;
+            }
+            if br & 1 != 0 {
+                base.b[sq(0, 7)] = mk(1, R);
+            }
+            if br & 2 != 0 {
+                base.b[sq(7, 7)] = mk(1, R);
+            }
+            expand_variants(&base, f);
+            for x in 0..64 {
+                if base.b[x] != EMPTY {
+                    continue;
+                }
+                for col in 0..2u8 {
+                    for &kd in &[P, N, B, R, Q] {
+                        if kd == P && (rank_of(x) == 0 || rank_of(x) == 7) {
+                            continue;
+                        }
+                        let mut p = base;
+                        p.b[x] = mk(col, kd);
+                        expand_variants(&p, f);
+                    }
+                }
+            }
+        }
+    }
+}
+
+/// shard = corner (0..4) * 2 + side to move
+pub const BOXK_SHARDS: usize = 8;
+
+/// BOXK: the king of the side to move in a corner, the enemy king a knight's jump away (taking
+/// the flight squares), one enemy man X attacking the king (every attack option up to distance 7),
+/// one own man A of any kind on every square, and nothing else or an own pawn B on its seventh
+/// rank with an enemy knight or rook Z diagonally in front of it: positions with no or exactly
+/// one legal move, of every move class, next to pseudo-legal moves of the other classes.
+pub fn boxk(shard: usize, part: usize, f: Sink) {
+    let corner = [0usize, 7, 56, 63][shard / 2];
+    let own = (shard % 2) as u8;
+    let opp = 1 - own;
+    let (cf, cr) = (file_of(corner), rank_of(corner));
+    let sf = if cf == 0 { 1 } else { -1 };
+    let sr = if cr == 0 { 1 } else { -1 };
+    let r7 = if own == 0 { 6 } else { 1 };
+    let r8 = if own == 0 { 7 } else { 0 };
+    let xs = attack_options(corner, own, 7);
+    for ek in [sq(cf + 2 * sf, cr + sr), sq(cf + sf, cr + 2 * sr)] {
+        for (xi, &(xsq, xk)) in xs.iter().enumerate() {
+            if xi % KZONE_PARTS != part || xsq == ek {
+                continue;
+            }
+            let mut base = Pos::empty();
+            base.stm = own;
+            base.b[corner] = mk(own, K);
+            base.b[ek] = mk(opp, K);
+            base.b[xsq] = mk(opp, xk);
+            if !is_valid_normal(&base) {
+                continue;
+            }
+            for a in 0..64 {
+                if base.b[a] != EMPTY {
+                    continue;
+                }
+                for &ak in &[P, N, B, R, Q] {
+                    if ak == P && (rank_of(a) == 0 || rank_of(a) == 7) {
+                        continue;
+                    }
+                    let mut p = base;
+                    p.b[a] = mk(own, ak);
+                    if !is_valid_normal(&p) {
+                        continue;
+                    }
+                    f(&p);
+                    for bf in 0..8 {
+                        let bsq = sq(bf, r7);
+                        if p.b[bsq] != EMPTY {
+                            continue;
+                        }
+                        for df in [-1, 1] {
+                            if !(0..8).contains(&(bf + df)) {
+                                continue;
+                            }
+                            let zsq = sq(bf + df, r8);
+                            if p.b[zsq] != EMPTY {
+                                continue;
+                            }
+                            for &zk in &[N, R] {
+                                let mut q = p;
+                                q.b[bsq] = mk(own, P);
+                                q.b[zsq] = mk(opp, zk);
+                                emit_if_valid(&q, f);
+                            }
                         }
                     }
                 }
